@@ -64,6 +64,7 @@ REPS = (
 )
 CONTAINERS = ("da1", "da2", "da2s", "mi_feat", "mi_samp", "dataset", "list", "list_ds", "list12")
 EXTRAS = ("none", "scalar", "1d", "2d")
+WEIGHTS = ("none", "coord", "named", "unnamed")  # name of the user's weights array: that of its coordinate (cos(lat)), a name of its own, None
 HAS_LAT = {"da2", "dataset"}
 NANS = ("none", "feature", "sample")
 LAZY = ("eager", "dask_eager", "lazy_pre", "lazy_post")
@@ -222,7 +223,7 @@ def kwargs_for(name, case):
 # cases
 # --------------------------------------------------------------------------
 def _case(cls, container="da2", nan="none", attr="plain", where="data", pv="default", lazy="eager", hist="none",
-          name="default", cplx=False, dseed=0, base_i=0, extra="none"):
+          name="default", cplx=False, dseed=0, base_i=0, extra="none", weights="none"):
     if container not in HAS_LAT and pv == "coslat":
         pv = "default"
     if where == "global" and container not in ("dataset", "list_ds"):
@@ -230,7 +231,8 @@ def _case(cls, container="da2", nan="none", attr="plain", where="data", pv="defa
     if cplx and cls not in zoo.COMPLEX_INPUT_OK:
         cplx = False
     return dict(cls=cls, container=container, nan=nan, attr=attr, where=where, pv=pv, lazy=lazy, hist=hist,
-                name=name, cplx=bool(cplx), dseed=int(dseed), base_i=int(base_i), extra=extra)
+                name=name, cplx=bool(cplx), dseed=int(dseed), base_i=int(base_i), extra=extra,
+                weights=weights if container in ("da1", "da2", "da2s", "dataset", "list", "list_ds") else "none")
 
 
 def _draw(rng):
@@ -251,6 +253,7 @@ def _draw(rng):
         dseed=int(rng.integers(0, 2**31 - 1)),
         base_i=int(rng.integers(0, 4)),
         extra=str(rng.choice(EXTRAS, p=[0.64, 0.12, 0.12, 0.12])),
+        weights=str(rng.choice(WEIGHTS, p=[0.55, 0.2, 0.15, 0.1])),
     )
 
 
@@ -315,6 +318,13 @@ def cases(tier, seed):
                 if quick and (i + j + k) % 3:
                     continue
                 out.append(_case(cls, cont, extra=ex, dseed=800 + 10 * i + j, base_i=j))
+    # J. user weights (the usual cos(lat) array is NAMED like its coordinate)
+    for i, cls in enumerate(("EOF", "MCA", "EOFRotator", "HilbertEOF") if quick else REPS):
+        for j, cont in enumerate(("da2", "dataset", "list", "da1")):
+            for k, wn in enumerate(WEIGHTS[1:]):
+                if quick and (i + j + k) % 2 and wn != "coord":
+                    continue
+                out.append(_case(cls, cont, weights=wn, dseed=950 + 10 * i + j, base_i=j, hist=("none", "transform_new")[(i + j + k) % 2]))
     # I. lists of more than ten items (the per-item transformers are stored under the string keys '0', '1', ..)
     for i, cls in enumerate(("EOF", "MCA", "EOFRotator", "CCA")):
         out.append(_case(cls, "list12", hist=("transform_new", "none")[i % 2], dseed=900 + i, base_i=i))
@@ -339,7 +349,7 @@ def cases(tier, seed):
 def required(tier):
     cover = [f"cls:{c}" for c in CLASSES] + [f"container:{c}" for c in CONTAINERS]
     cover += [f"lazy:{z}" for z in ("eager", "lazy_pre", "lazy_post")] + [f"hist:{h}" for h in HISTS]
-    cover += [f"nan:{z}" for z in NANS] + ["rot_reordered:True", "rebuilt_lazy:True"] + [f"extra:{e}" for e in EXTRAS]
+    cover += [f"nan:{z}" for z in NANS] + ["rot_reordered:True", "rebuilt_lazy:True"] + [f"extra:{e}" for e in EXTRAS] + [f"weights:{w}" for w in WEIGHTS]
     cover += [f"attr:{k}" for k in ATTR_QUICK]
     cover += [f"op:{o}" for o in ("components", "scores", "transform_fit", "transform_new", "inverse_transform", "predict")]
     return {
@@ -466,6 +476,26 @@ def _leaves(obj):
     return list(obj) if isinstance(obj, (list, tuple)) else [obj]
 
 
+_CUR = {"weights": None}
+
+
+def _weights(field, kind, sdims, rng):
+    """labelled user weights along the first feature dimension of every leaf"""
+    import xarray as xr
+
+    if kind == "none":
+        return None
+    out = []
+    for leaf in _leaves(field):
+        d = [x for x in leaf.dims if x not in sdims][0]
+        w = xr.DataArray(rng.uniform(0.5, 2.0, size=leaf.sizes[d]), dims=(d,), coords={d: leaf.coords[d].values})
+        w.name = {"coord": d, "named": "wgt", "unnamed": None}[kind]
+        if isinstance(leaf, xr.Dataset):
+            w = xr.Dataset({v: w for v in leaf.data_vars})
+        out.append(w)
+    return out if isinstance(field, (list, tuple)) else out[0]
+
+
 def _extras(field, kind, sdims):
     """non-index coordinates on every leaf (the data and the index coordinates stay as they are)"""
     if kind == "none":
@@ -535,13 +565,14 @@ def build(case):
     cont = case["container"]
     sdims = _sample_dims(cont)
     n, n_new = 18, 6
-    fields, new_fields = [], []
+    fields, new_fields, wts = [], [], []
     for fi in range(nf):
         rng = gen.rng_for(case["dseed"], 13, fi)
         f = _field(cont, n, rng, case["cplx"], 0, 3 * fi, case["nan"], False)
         g = _field(cont, n_new, rng, case["cplx"], 40, 3 * fi, case["nan"], True)
         fields.append(_extras(_decorate(f, case, sdims), case.get("extra", "none"), sdims))
         new_fields.append(_extras(_decorate(g, case, sdims), case.get("extra", "none"), sdims))
+        wts.append(_weights(fields[-1], case.get("weights", "none"), sdims, gen.rng_for(case["dseed"], 131, fi)))
     if case["lazy"] != "eager":
         def ch(o):
             if isinstance(o, list):
@@ -550,6 +581,7 @@ def build(case):
             return o.chunk({d0: max(2, o.sizes[d0] // 2)})
         fields = [ch(f) for f in fields]
     dim = sdims if len(sdims) > 1 else sdims[0]
+    _CUR["weights"] = wts if case.get("weights", "none") != "none" else None  # (not into the case record: not JSON)
     return fields, new_fields, dim
 
 
@@ -876,7 +908,7 @@ def _fit(case, fields, dim):
         rot.update(max_iter=40, rtol=0.3)
     if case["lazy"] != "eager" and bn == "SparsePCA":
         kw["max_iter"] = 3  # dask input: every iteration adds a dask SVD to the graph (500 of them take > 20 min to build)
-    return zoo.fit(name, fields, dim, kw=kw, rot_kw=rot, base_name=bn if rot is not None else None)
+    return zoo.fit(name, fields, dim, kw=kw, rot_kw=rot, base_name=bn if rot is not None else None, weights=_CUR["weights"])
 
 
 def _through(e):
@@ -1066,8 +1098,8 @@ def run_case(case, obs):
     cfg = _cfg_tags(case)
     obs.cell(f"cls:{name}", f"container:{case['container']}", f"nan:{case['nan']}", f"attr:{case['attr']}",
              f"where:{case['where']}", f"pv:{case['pv']}", f"lazy:{case['lazy']}", f"hist:{case['hist']}",
-             f"name:{case['name']}", f"cplx:{case['cplx']}", f"combos:{case.get('combos', 'all')}", f"extra:{case.get('extra', 'none')}")
-    obs.tag(extra_coords=case.get("extra", "none"))
+             f"name:{case['name']}", f"cplx:{case['cplx']}", f"combos:{case.get('combos', 'all')}", f"extra:{case.get('extra', 'none')}", f"weights:{case.get('weights', 'none')}")
+    obs.tag(extra_coords=case.get("extra", "none"), user_weights=case.get("weights", "none"))
     for k in HOOK:
         HOOK[k] = 0
     fields, new_fields, dim = build(case)
